@@ -47,6 +47,32 @@ tables! {
     "bgp.path_attributes.PathAttributeType", routecore::bgp::path_attributes::PathAttributeType, u8;
 }
 
+/// BGP4MP STATE_CHANGE (subtype 0) and STATE_CHANGE_AS4 (subtype 5) records whose old and new state are `n`, read
+/// back through `MrtFile::messages()`: the four observed states must be one value, reported like `te`
+fn via_mrtstate(n: u16) -> String {
+    use routecore::mrt::{Bgp4Mp, MrtFile};
+    let mut seen: Vec<routecore::bgp::fsm::state_machine::State> = vec![];
+    for as4 in [false, true] {
+        let mut body: Vec<u8> = vec![];
+        if as4 { body.extend(65001u32.to_be_bytes()); body.extend(65002u32.to_be_bytes()); } else { body.extend(65001u16.to_be_bytes()); body.extend(65002u16.to_be_bytes()); }
+        body.extend(0u16.to_be_bytes()); body.extend(1u16.to_be_bytes());
+        body.extend([10, 0, 0, 1]); body.extend([10, 0, 0, 2]);
+        body.extend(n.to_be_bytes()); body.extend(n.to_be_bytes());
+        let mut rec: Vec<u8> = vec![0, 0, 0, 1];
+        rec.extend(16u16.to_be_bytes()); rec.extend((if as4 { 5u16 } else { 0u16 }).to_be_bytes());
+        rec.extend((body.len() as u32).to_be_bytes()); rec.extend(body);
+        let f = MrtFile::new(&rec[..]);
+        let mut it = f.messages();
+        match it.next() {
+            Some(Bgp4Mp::StateChange(sc)) => { seen.push(sc.old_state()); seen.push(sc.new_state()); }
+            Some(Bgp4Mp::StateChangeAs4(sc)) => { seen.push(sc.old_state()); seen.push(sc.new_state()); }
+            _ => return "no-state-change-record".into(),
+        }
+    }
+    if seen.len() != 4 || seen.iter().any(|x| *x != seen[0]) { return format!("states-differ {:?}", seen).replace(' ', ""); }
+    format!("{} {}", dbg(&seen[0]), u16::from(seen[0]))
+}
+
 /// canonical Debug: strip spaces so `Unsupported(3, 3)` == model's `Unsupported(3,3)`
 fn dbg<T: std::fmt::Debug>(t: &T) -> String { format!("{:?}", t).replace(' ', "") }
 
@@ -82,6 +108,10 @@ impl Prop for C18 {
             for n in 0..(1u64 << bits) { v.push(format!("te {} {}", name, n)); }
         }
         for n in 0..256 { v.push(format!("msgtype {}", n)); v.push(format!("apdir {}", n)); v.push(format!("segtype {}", n)); }
+        // decoders that carry an enumeration number (exhaustive): MRT STATE_CHANGE records (round-6 seed: codes 7 / 8 mapped
+        // to Idle while parsing the record, the typeenum! conversions untouched), Capability::typ()
+        for n in 0..65536u32 { v.push(format!("via mrtstate {}", n)); }
+        for n in 0..256 { v.push(format!("via captype {}", n)); }
         for c in 0..256 { for s in 0..256 { v.push(format!("details {} {}", c, s)); } }
         // the same pairs on NOTIFICATIONs that carry data (the data must not influence code/subcode):
         // an embedded (code, subcode) pair as RFC 8538 Hard Reset carries it, one octet, and random data
@@ -147,6 +177,12 @@ impl Prop for C18 {
                     } }
                     format!("named={} roundtrip_fail={} bytes_fail={}", named, rt, bf)
                 }
+                _ => "bad-op".into(),
+            },
+            // an enumeration number as a DECODER that carries it reports it (not the bare From / Into): same reply as `te`
+            ["via", "mrtstate", n] => match n.parse::<u16>() { Ok(n) => via_mrtstate(n), _ => "bad-op".into() },
+            ["via", "captype", n] => match n.parse::<u8>() {
+                Ok(n) => { let c = routecore::bgp::message::open::Capability::new(vec![n, 0]); let t = c.typ(); format!("{} {}", dbg(&t), u8::from(t)) }
                 _ => "bad-op".into(),
             },
             ["msgtype", n] => match n.parse::<u8>() {
@@ -222,6 +258,14 @@ impl Prop for C18 {
             }
             ["afisafi-sweep", ..] => {
                 if reply.ends_with("roundtrip_fail=0 bytes_fail=0") { Ok(()) } else { Err(reply.into()) }
+            }
+            ["via", _, n] => {
+                if r.len() != 2 || r[1] != *n { return Err(format!("number -> decoder -> enum -> number gave {}", reply)); }
+                if let Some(p) = r[0].find('(') {
+                    let inner = &r[0][p + 1..r[0].len() - 1];
+                    if inner != *n { return Err(format!("catch-all variant carries {} for {}", inner, n)); }
+                }
+                Ok(())
             }
             ["msgtype", n] => {
                 let v: routecore::bgp::message::MsgType = n.parse::<u8>().unwrap().into();
